@@ -13,18 +13,22 @@ use ohkami::__verif::tree::{self, Tree};
 pub enum Pat { S(&'static [u8]), P }
 pub struct N { pub id: u8, pub pat: Pat, pub handler: bool, pub kids: &'static [N] }
 
+/// node ids are below `NN`; id `NN - 1` is reserved by the generated harnesses for "no node carries this handler"
+const NN: usize = 9;
+
 fn build(n: &'static N) -> Tree {
     let kids: &'static [Tree] = match n.kids.len() {
         0 => &[],
         1 => Box::leak(Box::new([build(&n.kids[0])])),
         2 => Box::leak(Box::new([build(&n.kids[0]), build(&n.kids[1])])),
-        _ => Box::leak(Box::new([build(&n.kids[0]), build(&n.kids[1]), build(&n.kids[2])])),
+        3 => Box::leak(Box::new([build(&n.kids[0]), build(&n.kids[1]), build(&n.kids[2])])),
+        _ => Box::leak(Box::new([build(&n.kids[0]), build(&n.kids[1]), build(&n.kids[2]), build(&n.kids[3])])),
     };
     tree::node(match n.pat { Pat::S(s) => Some(s), Pat::P => None }, kids)
 }
 
 /// addresses and handler flags of all nodes, indexed by descriptor id (concrete traversal)
-fn collect(t: &Tree, n: &'static N, addrs: &mut [usize; 8], handlers: &mut [bool; 8]) {
+fn collect(t: &Tree, n: &'static N, addrs: &mut [usize; NN], handlers: &mut [bool; NN]) {
     addrs[n.id as usize] = tree::addr(t);
     handlers[n.id as usize] = n.handler;
     let mut i = 0;
@@ -90,10 +94,10 @@ fn first_match(routes: &'static [Route], path: &[u8], len: usize, greedy: bool) 
     None
 }
 
-fn check<const NB: usize>(root: &'static N, routes: &'static [Route], allow_greedy: bool, free_percent: bool) {
+pub fn check<const NB: usize>(root: &'static N, routes: &'static [Route], allow_greedy: bool, free_percent: bool) {
     let t = build(root);
-    let mut addrs = [0usize; 8];
-    let mut handlers = [false; 8];
+    let mut addrs = [0usize; NN];
+    let mut handlers = [false; NN];
     collect(&t, root, &mut addrs, &mut handlers);
 
     let bytes: [u8; NB] = kani::any();
@@ -115,7 +119,7 @@ fn check<const NB: usize>(root: &'static N, routes: &'static [Route], allow_gree
     let base = buf.as_ptr() as usize;
     let mut node_has_handler = false;
     let mut k = 0;
-    while k < 8 { if addrs[k] == f.node && handlers[k] { node_has_handler = true; } k += 1; }
+    while k < NN { if addrs[k] == f.node && handlers[k] { node_has_handler = true; } k += 1; }
     let is_404 = !f.hit || !node_has_handler;
     let agrees = |o: Option<Res>| -> bool {
         match o {
